@@ -69,14 +69,17 @@ def protoFeature (p : Proto) (c0 c1 : Bool) (f : Feature) : FState :=
   | .airplay => airplayFeature c0 f
   | .raop => raopFeature c0 f
 
-/-- dynamic state of the five Features instances, as far as get_feature reads it -/
-abbrev Env := Proto → Bool × Bool
+/-- dynamic state of the five Features instances, as far as get_feature reads it for each feature -/
+abbrev Env := Proto → Feature → Bool × Bool
 
-/-- right after setup(): nothing playing, no flags, power state unknown; `video` = the AirPlay
-    service advertises video support (a property of the device, not of pyatv) -/
-def freshEnv (video : Bool) : Env
-  | .airplay => (video, false)
-  | _ => (false, false)
+/-- right after setup(): nothing playing, no flags; `video` = the AirPlay service advertises video
+    support (a property of the device, not of pyatv); `power` = Companion's real connect got an
+    answer to FetchAttentionState (CompanionPower.supports_power_updates) — false while
+    SetupData.connect is stubbed -/
+def freshEnv (video : Bool) (power : Bool := false) : Env
+  | .airplay, _ => (video, false)
+  | .companion, .f_PowerState => (power, false)
+  | _, _ => (false, false)
 
 def rank (p : Proto) : Nat := defaultPriorities.idxOf p
 
@@ -100,7 +103,7 @@ def pushCount (S : PSet) : Nat :=
 def facadeFeature (S : PSet) (env : Env) (f : Feature) : FState :=
   if f == .f_PushUpdates && pushCount S ≥ 1 then .available
   else match featureMap S f with
-    | some p => protoFeature p (env p).1 (env p).2 f
+    | some p => protoFeature p (env p f).1 (env p f).2 f
     | none => .unsupported
 
 /-- some member the feature stands for is routed to an implementation -/
